@@ -152,6 +152,11 @@ let mirror_cycle_exists (m : mirror) (seed : int) : bool =
 let () =
   iter_cases (fun id c ->
     (* names -> ranks *)
+    (* the empty name in the table: outside the property's domain (a child list with a hole) the Go code touches the node ""
+       through the zero value of its slot array, the model touches [nobody]: such sorts are not compared *)
+    let has_empty = match field_opt "names" c with
+      | Some f -> List.exists (fun x -> string_of_bytes x = "") (args f) | None -> false in
+    if has_empty then count "cases_with_empty_name";
     let to_rank, of_rank, names_txt =
       match field_opt "names" c with
       | None -> (fun i -> i), (fun r -> r), ""
@@ -163,7 +168,7 @@ let () =
           let rk = Array.make n 0 in
           Array.iteri (fun r i -> rk.(i) <- r) idx;
           Array.iteri (fun r i -> if r > 0 && tab.(idx.(r - 1)) = tab.(i) then failwith "duplicate name in the table") idx;
-          Array.iter (fun s -> if s = "" then failwith "empty name in the table") tab;
+          (* the empty string is a name like any other (rank 0); the model's [nobody] = -1 is no rank at all *)
           let shown = Buffer.create 64 in
           Array.iteri (fun i s -> if Buffer.length shown < 600 then Buffer.add_string shown
             (let e = String.escaped s in Printf.sprintf " %d=\"%s\"" i (if String.length e > 60 then String.sub e 0 60 ^ "..." else e))) tab;
@@ -319,6 +324,7 @@ let () =
                only the correspondence with the model is checked *)
             count "sorts_outside_domain";
             (match mres, tag ob with
+             | _, _ when has_empty -> clean := false; count "sorts_outside_domain_empty_name_unjudged"
              | None, _ -> count "sorts_outside_domain_unjudged"
              | Some SortUnspec, _ -> count "sort_unspec"
              | Some SortPanic, "panic" -> count "sort_panic"
@@ -397,6 +403,10 @@ let () =
           end
       | "cycle" ->
           let seed = r 0 in
+          if tag ob = "hang" then begin
+            count "cycle_hangs";
+            propfail id (here () ^ " FindCycle did not return within the watchdog's 400 ms (the walk back through the parent map does not end)" ^ names_txt)
+          end else begin
           (match tag ob with "cycle" -> () | _ -> shape ());
           if use_model && is_node st.(g) nobody then
             (* the empty name is FindCycle's sentinel; a graph that has it as a node is outside the domain *)
@@ -424,5 +434,5 @@ let () =
               else if not exists then mismatch id (here () ^ " model finds no cycle through the seed but the implementation returned a valid one (contradicts C15_cycle_emptiness_any_order: model unfaithful)")
             end else if exists then
               propfail id (here () ^ " a cycle through the seed exists but FindCycle returned nothing" ^ names_txt)
-          end
+          end end
       | t -> failwith ("unknown op " ^ t)) ops_sx)
